@@ -79,6 +79,14 @@ class Maker:
                 t = v[0:1].clone().expand(v.shape)
             else:
                 t = v
+        elif form in ("transposed", "sliced"):  # ref/layout.py: same values, non-contiguous view
+            from ref.layout import applicable, relayout
+
+            t = relayout(v, form) if applicable(v, form) else v
+        elif form in ("expanded", "repeat"):  # stride-0 batch of the first entry / its contiguous reference
+            from ref.layout import relayout
+
+            t = relayout(v[0], form, v.shape[0]) if (v.ndim >= 2 and v.shape[0] > 1) else v
         else:
             raise KeyError(form)
         self.watch.append((name, t))
